@@ -6,6 +6,7 @@ exposes.
 """
 from mc import families as F
 from mc import gf2
+from mc import session
 
 PROPERTY = 'C01'
 LEVEL = 'exploration'
@@ -33,7 +34,9 @@ def cases(tier, seed):
     b = BOUNDS[tier]
     out = F.configs(b['max_n'], F.CLASSES_2D, l_max=b['l_max_2d'], used=True)
     out += F.configs(b['max_n'], F.CLASSES_3D, l_max=b['l_max_3d'], used=True)
-    return out
+    # sessions: objects of several sizes / deformations of one class built in ONE process
+    sess = [{'part': 'session', 'cfgs': seq} for seq in session.interleave_by_size(out)]
+    return out + sess
 
 
 def key_of(cfg, kind, **kw):
@@ -48,6 +51,8 @@ def key_of(cfg, kind, **kw):
 
 
 def eval_case(cfg):
+    if cfg.get('part') == 'session':
+        return session.run(cfg['cfgs'], eval_case, F.cfg_label)
     res = {'evals': 1, 'nontrivial': 0, 'violations': [], 'outcomes': [], 'samples': []}
     V = res['violations']
     try:
